@@ -157,7 +157,7 @@ def _body_lev(shape, shape2, mode):
         from models import np_model
         from vlib import sym, symops as so
         seqs = [sym.sym_str(f"s{i}", n, lo=1) for i, n in enumerate(shape)]
-        seqs2 = [sym.sym_str(f"t{i}", n, lo=1) for i, n in enumerate(shape2)] if shape2 else None
+        seqs2 = seqs if shape2 == "same" else [sym.sym_str(f"t{i}", n, lo=1) for i, n in enumerate(shape2)] if shape2 else None
         if seqs2 is None:
             dists = [hc.lev_term(seqs[i], seqs[j]) for i in range(len(seqs)) for j in range(i + 1, len(seqs))]
         else:
@@ -191,7 +191,7 @@ def _replay_lev(shape, shape2, mode):
         import numpy as np
         from pyrepseq import distance, stats
         seqs = [inputs[f"s{i}"] for i in range(len(shape))]
-        seqs2 = [inputs[f"t{i}"] for i in range(len(shape2))] if shape2 else None
+        seqs2 = seqs if shape2 == "same" else [inputs[f"t{i}"] for i in range(len(shape2))] if shape2 else None
         d = [hc.lev(seqs[i], seqs[j]) for i in range(len(seqs)) for j in range(i + 1, len(seqs))] if seqs2 is None else \
             [hc.lev(a, b) for a in seqs for b in seqs2]
         if mode == "bins0":
@@ -503,10 +503,10 @@ def conditions(tier):
                              bounds=f"arbitrary metric on {n}" + (f" x {n2}" if n2 else "") + f" elements, {nb} symbolic bins ({bk}), normalize={norm}, pseudocount={'symbolic >= 0' if pseudo is True else pseudo or 0}"))
     for shape, shape2, mode in [((1, 1), None, "explicit"), ((2, 1, 2), None, "explicit"), ((1, 1, 1), None, "default"), ((2, 2), None, "bins0"),
                                 ((1, 1, 1), None, "bins0"), ((1, 1), (1,), "explicit"), ((2, 1), (1, 2), "explicit"), ((1, 1), (1, 1), "bins0"),
-                                ((2,), (2, 1), "default")] + ([((2, 2, 2), None, "explicit"), ((2, 2), (2, 2), "explicit")] if T else []):
-        cid = "C05/levenshtein/" + ",".join(map(str, shape)) + ("/vs/" + ",".join(map(str, shape2)) if shape2 else "") + f"/{mode}"
+                                ((2,), (2, 1), "default"), ((1, 2), "same", "explicit"), ((1, 1), "same", "bins0")] + ([((2, 2, 2), None, "explicit"), ((2, 2), (2, 2), "explicit")] if T else []):
+        cid = "C05/levenshtein/" + ",".join(map(str, shape)) + ("/vs/the-same-object" if shape2 == "same" else "/vs/" + ",".join(map(str, shape2)) if shape2 else "") + f"/{mode}"
         out.append(Condition(cid, _body_lev(shape, shape2, mode), _replay_lev(shape, shape2, mode), budget=300 if not T else 2400, models=M,
-                             bounds=f"real Levenshtein metric on free strings {shape}" + (f" vs {shape2}" if shape2 else "") + f", {mode}"))
+                             bounds=f"real Levenshtein metric on free strings {shape}" + (" passed as BOTH collections (one object): all N x N cross pairs" if shape2 == "same" else f" vs {shape2}" if shape2 else "") + f", {mode}"))
     for kind in ("beta", "paired", "tuple"):
         out.append(Condition(f"C05/tcr_table/{kind}", _body_tcr(kind), _replay_tcr(kind), budget=600, models=M,
                              bounds=f"pcDelta on a 3-row TCR input ({kind}) with the default metric, free one-letter CDR3s"))
